@@ -1,30 +1,39 @@
 #!/bin/bash
-# usage: confirm_mut.sh <Cxx> <mdir>  — confirms a seeded mutation in /tmp/scratch: applies, builds, suite passes, demo fails with / passes without
+# usage: confirm_mut.sh <Cxx> <mdir>
+# Confirms a seeded change in a scratch worktree ($SCRATCH_CONFIRM, default /tmp/scratch): the patch
+# applies, the tree builds, the repository's suite still passes, the demonstration fails with the
+# patch and passes without it. <mdir> holds patch.diff and the demonstration: any number of
+# demo*_test.go files (each names, in its header comment, the package directory it is copied into)
+# and/or a directory demo/ with a main package (run with -tags mutdemo).
 ID=$1; M=$2
 S=${SCRATCH_CONFIRM:-/tmp/scratch}
 export GOFLAGS=-mod=mod GOPROXY=off
+[ -d $S ] || git -C /repo worktree add -q --detach $S HEAD
 git -C $S checkout -q --detach $(git -C /repo rev-parse HEAD) 2>/dev/null; git -C $S checkout -q -- .; git -C $S clean -fdq
 res="id=$ID m=$(basename $M)"
 if ! git -C $S apply --check $M/patch.diff 2>/dev/null; then echo "$res APPLY=no"; exit 0; fi
-# locate demo
-demo=""; kind=""
-if [ -f $M/demo_test.go ]; then demo=$M/demo_test.go; kind=test; elif [ -f $M/demo/main.go ]; then demo=$M/demo/main.go; kind=main; fi
 rundemo() {
-  if [ "$kind" = test ]; then
+  local any=0 bad=0
+  for demo in $M/demo*_test.go; do
+    [ -f "$demo" ] || continue
+    any=1
     pkgdir=$(grep -oE '(pkg|internal|cmd)/[A-Za-z0-9_/]+' $demo | while read d; do d=${d%/}; [ -d $S/$d ] && echo $d && break; done | head -1)
     [ -z "$pkgdir" ] && { echo "nodir"; return; }
     tag=$(grep -m1 '^//go:build' $demo | sed 's#//go:build ##')
-    cp $demo $S/$pkgdir/zz_mutdemo_test.go
+    dst=$S/$pkgdir/zz_$(basename $demo .go | tr -c 'A-Za-z0-9_\n' '_')_mutdemo_test.go
+    cp $demo $dst
     tests=$(grep -oE '^func (Test[A-Za-z0-9_]+)' $demo | awk '{print $2}' | paste -sd'|')
-    (cd $S && go test -tags "verif $tag" -vet=off -count=1 -run "^($tests)\$" ./$pkgdir/ >/tmp/mutdemo.$$.out 2>&1); rc=$?
-    rm -f $S/$pkgdir/zz_mutdemo_test.go
-    echo $rc
-  elif [ "$kind" = main ]; then
-    mkdir -p $S/zzmutdemo && cp $demo $S/zzmutdemo/main.go
-    (cd $S && go run ./zzmutdemo >/tmp/mutdemo.$$.out 2>&1); rc=$?
+    (cd $S && go test -tags "verif $tag" -vet=off -count=1 -run "^($tests)\$" ./$pkgdir/ >/tmp/mutdemo.$$.out 2>&1) || bad=1
+    rm -f $dst
+  done
+  if [ -d $M/demo ]; then
+    any=1
+    rm -rf $S/zzmutdemo; cp -r $M/demo $S/zzmutdemo
+    (cd $S && go run -tags "verif mutdemo" ./zzmutdemo >/tmp/mutdemo.$$.out 2>&1) || bad=1
     rm -rf $S/zzmutdemo
-    echo $rc
-  else echo nodemo; fi
+  fi
+  [ $any = 0 ] && { echo nodemo; return; }
+  echo $bad
 }
 clean_rc=$(rundemo)
 git -C $S apply $M/patch.diff
@@ -32,4 +41,5 @@ if ! (cd $S && go build ./... >/dev/null 2>&1); then echo "$res APPLY=yes BUILD=
 suite=$(cd $S && go test -vet=off -count=1 ./... 2>&1 | grep -E '^(--- FAIL|FAIL)' | grep -v 'TestGenerateSpec\|internal/sandbox\|^FAIL$' | wc -l)
 mut_rc=$(rundemo)
 git -C $S checkout -q -- .; git -C $S clean -fdq
+rm -f /tmp/mutdemo.$$.out
 echo "$res APPLY=yes BUILD=yes SUITE_EXTRA_FAILS=$suite DEMO_CLEAN_RC=$clean_rc DEMO_MUT_RC=$mut_rc"
